@@ -50,7 +50,11 @@ type Round struct {
 
 // Call the function with the arguments provided.
 func (f *Round) Call(s *slip.Scope, args slip.List, depth int) slip.Object {
-	return round(s, f, args, depth)
+	values := round(s, f, args, depth)
+	values[0] = reduceNumber(values[0])
+	values[1] = reduceNumber(values[1])
+
+	return values
 }
 
 func round(s *slip.Scope, f slip.Object, args slip.List, depth int) slip.Values {
